@@ -130,6 +130,9 @@ def gen_case(rng, tier):
     # unsigned and narrow types first when they fit: those are the ones conversions get wrong
     pref = [d for d in fit if d.startswith('u')] * 3 + fit
     c = {"vars": vars_, "obj": obj, "cons": cons, "rows": rows,
+         # constraint labels are arbitrary hashables: besides 'c<i>', integers next to their string forms and tuples (labels
+         # that NumPy would coerce to one string: np.isin / np.array over them confuses 1 with '1'; round-6 miss C08 r6m3)
+         "clab": rng.choice(['c', 'c', 'lookalike', 'lookalike', 'mixed']),
          "form": rng.choice(['dict', 'array', 'array', 'array', 'list', 'sampleset']), "dtype": rng.choice(pref),
          "atol": None if default_tol else rng.choice(TOLS), "rtol": None if default_tol else rng.choice(TOLS),
          "exact": rng.random() < 0.5}
@@ -194,6 +197,15 @@ def expr_qm(e, vinfo, shuf=None):
     return qm
 
 
+CLABELS = {'lookalike': [1, '1', 0, '0', 2, '2', 3, '3', 4, '4', 5, '5'],
+           'mixed': [('k', 0), 0, 'c1', '0', ('k', 1), 7, '7', 'x', 1, '1', 'c9', 9]}
+
+
+def clabel(c, i):
+    tab = CLABELS.get(c.get("clab", 'c'))
+    return tab[i] if tab and i < len(tab) else f"c{i}"
+
+
 def build(c):
     cqm = dimod.ConstrainedQuadraticModel()
     vinfo = {repr(v[0]): v for v in c["vars"]}
@@ -220,7 +232,7 @@ def build(c):
                 pen = 'linear'
             kw = dict(weight=float(F(e["weight"])), penalty=pen)
         labels.append(cqm.add_constraint_from_model(expr_qm(e, vinfo, None if shuf is None else shuf + i + 1),
-                                                    e["sense"], rhs=float(F(e["rhs"])), label=f"c{i}", **kw))
+                                                    e["sense"], rhs=float(F(e["rhs"])), label=clabel(c, i), **kw))
     declare()          # variables used nowhere come last
     return cqm, labels
 
